@@ -49,9 +49,19 @@ FORBIDDEN = ('core::mem::forget', 'core::mem::manually_drop::ManuallyDrop::<T>::
              'alloc::boxed::Box::<T, A>::into_raw', 'alloc::vec::Vec::<T>::leak', 'alloc::vec::Vec::<T, A>::leak')
 
 
-def request_sites(ctx, facts, scope, rule='resource-request-results'):
+# accepted entries whose function holds more than one justified discarding site today (counted by hand; default 1)
+BUDGET = {
+    ('PartialHashAggregateStream::handle_producing_output', 'MemoryReservation::try_resize'): 2,
+    ('PartialReduceHashAggregateStream::handle_producing_output', 'MemoryReservation::try_resize'): 2,
+}
+
+
+def request_sites(ctx, facts, scope, rule='resource-request-results', accepted=None, budget=None):
+    accepted = ACCEPTED if accepted is None else accepted
+    budget = BUDGET if budget is None else budget
     n = 0
     bad = 0
+    lossy_sites = []        # (d, name, line, rec, inst, key, fs, lossy)
     for d, i, e in facts.all_fn_entries():
         if e[7] not in scope or '::test::' in d or '::test_util' in d or '::tests::' in d:
             continue
@@ -70,22 +80,31 @@ def request_sites(ctx, facts, scope, rule='resource-request-results'):
                 continue
             lossy = [x for x in fs if x == 'dropped' or x.startswith('swallow')]
             if lossy and not ('matched' in fs or 'propagated' in fs):
-                acc = [r for (fsuf, csuf), r in ACCEPTED.items() if d.endswith(fsuf) and name.endswith(csuf)]
-                if not acc:
-                    # a private helper extracted from an accepted site inherits its justification when every caller of the helper is
-                    # an accepted site for the same callee (e.g. the body of a destructor moved into a free function)
-                    callers = set(facts.callers_of(d))
-                    inh = [[r for (fsuf, csuf), r in ACCEPTED.items() if c.endswith(fsuf) and name.endswith(csuf)] for c in callers]
-                    if callers and all(inh):
-                        acc = ['helper called only from accepted site(s): ' + inh[0][0]]
-                if acc:
-                    ctx.ok(rule, inst, nontrivial=True, sample={'site': inst, 'fate': sorted(fs), 'accepted_because': acc[0]})
-                else:
-                    bad += 1
-                    ctx.fail(rule, inst, ctx.loc(rec, line), 'the result of a memory/spill request is discarded (%s) at a site that is not one of the justified ones: a refused '
-                             'reservation or a failed spill write would go unnoticed' % sorted(lossy), key=key)
+                lossy_sites.append((d, name, line, rec, inst, key, fs, lossy))
             else:
                 ctx.ok(rule, inst, sample={'site': inst, 'fate': sorted(fs)} if n < 12 else None)
+    # attribute every discarding site to an accepted entry: directly (it is in the accepted function) or by inheritance (it is in a private
+    # helper all of whose callers are accepted sites for the same callee, e.g. the body of a destructor moved into a free function).  Each entry
+    # justifies a fixed number of sites: a NEW discarding site next to an accepted one (same function, or a helper of it) is reported.
+    used = {}
+    ordered = sorted(lossy_sites, key=lambda s_: (0 if any(s_[0].endswith(f_) and s_[1].endswith(c_) for (f_, c_) in accepted) else 1, s_[0], s_[2]))
+    for d, name, line, rec, inst, key, fs, lossy in ordered:
+        k = next(((f_, c_) for (f_, c_) in accepted if d.endswith(f_) and name.endswith(c_)), None)
+        why = accepted.get(k) if k else None
+        if k is None:
+            callers = set(x.split('::{closure')[0] if False else x for x in facts.callers_of(d))
+            ks = [next(((f_, c_) for (f_, c_) in accepted if c.endswith(f_) and name.endswith(c_)), None) for c in callers]
+            if callers and all(ks):
+                k = ks[0]
+                why = 'helper called only from accepted site(s): ' + accepted[k]
+        if k is not None and used.get(k, 0) < budget.get(k, 1):
+            used[k] = used.get(k, 0) + 1
+            ctx.ok(rule, inst, nontrivial=True, sample={'site': inst, 'fate': sorted(fs), 'accepted_because': why})
+        else:
+            bad += 1
+            extra = '' if k is None else ' (the accepted entry %s::%s justifies %d site(s), which are already accounted for)' % (k[0].rsplit('::', 2)[-2] if '::' in k[0] else k[0], k[1], budget.get(k, 1))
+            ctx.fail(rule, inst, ctx.loc(rec, line), 'the result of a memory/spill request is discarded (%s) at a site that is not one of the justified ones%s: a refused '
+                     'reservation or a failed spill write would go unnoticed' % (sorted(lossy), extra), key=key)
     return bad, n
 
 
